@@ -62,7 +62,7 @@ RULE = ("exhaustive small scope: every vector of chosen mean scores over {0,1,2,
         "distinct by driver line; non-trivial = the search completed with at least two candidates")
 LEVEL_TEXT = ("Lean 4 theorems, for all candidate lists / grids, score functions (NaN allowed), metric directions, base forecasters (abstract machine) and "
               "call sequences, about an executable model of _tune.py: the grid enumerates every combination once, every candidate is evaluated on the tuner's cv "
-              "and series, each cv_results_ row is the mean of that candidate's evaluate() scores, the reported best is the lowest mean for losses (first among ties), "
+              "and series, each cv_results_ row is the mean of that candidate's evaluate() scores, the reported best is the lowest mean for losses and the highest for greater-is-better metrics (first among ties), "
               "best index/params/score belong to one row, a refitted tuner is bisimilar to a forecaster built with the best parameters and fitted on all data, "
               "without refit every method of the tuner (cutoff included) raises NotFittedError. Three clauses failed for the code as first checked "
               "(greater-is-better metrics selected the lowest score; cutoff ignored refit=False; update_params defaults differed); they were repaired in /repo "
